@@ -85,7 +85,7 @@ class C02:
 
     # ------------------------------------------------------------------ generation
     def generate(self, rng, tier):
-        ncurves = {'quick': 400, 'search': 80, 'thorough': 3600}.get(tier, 200)
+        ncurves = {'quick': 400, 'search': 80, 'thorough': 8000}.get(tier, 200)
         nmax = {'quick': 16, 'search': 12, 'thorough': 64}.get(tier, 16)
         configs = list(itertools.product(range(4), range(len(SPECS)), range(len(VIAS))))
         rng.shuffle(configs)
